@@ -39,6 +39,23 @@ Fixpoint is_prefix (p x : str) : bool :=
   | _ :: _, [] => false
   end.
 
+(* lexicographic order on strings (Rust's `String: Ord`) and a stable insertion sort by key *)
+Fixpoint str_leb (a b : str) : bool :=
+  match a, b with
+  | [], _ => true
+  | _ :: _, [] => false
+  | x :: a', y :: b' => if x <? y then true else if y <? x then false else str_leb a' b'
+  end.
+
+Fixpoint kinsert {V : Type} (x : str * V) (l : list (str * V)) : list (str * V) :=
+  match l with
+  | [] => [x]
+  | y :: r => if str_leb (fst x) (fst y) then x :: l else y :: kinsert x r
+  end.
+
+Fixpoint ksort {V : Type} (l : list (str * V)) : list (str * V) :=
+  match l with [] => [] | x :: r => kinsert x (ksort r) end.
+
 (* ------------------------------------------------------------------ version table *)
 (* add_rust_crate: crate name -> Some spec-text | None.  The table itself is extracted from the
    source on every run; [lookup] is the `match crate_name { ... _ => None }`. *)
@@ -70,7 +87,7 @@ Record gen := mkGen {
   g_name : str;                          (* ProjectGenerator.name *)
   g_bin : bool;
   g_serde : bool; g_tokio : bool; g_axum : bool;
-  g_crates : list (str * option str);    (* rust_crate_deps in ITERATION order *)
+  g_crates : list (str * option str);    (* rust_crate_deps in (arbitrary) HashMap iteration order *)
   g_root : str;                          (* env!("CARGO_MANIFEST_DIR") *)
   g_version : str                        (* INCAN_VERSION *)
 }.
@@ -108,8 +125,9 @@ Definition added (g : gen) : list str := map fst (fixed_deps g).
 Definition crate_dep (c : str * option str) : dep :=
   (fst c, match snd c with Some sp => sp | None => s """*""" end).
 
+(* the entries of the rust_crate_deps HashMap are SORTED BY CRATE NAME before they are written *)
 Definition rust_deps (g : gen) : list dep :=
-  map crate_dep (filter (fun c => negb (mem (fst c) (added g))) (g_crates g)).
+  map crate_dep (filter (fun c => negb (mem (fst c) (added g))) (ksort (g_crates g))).
 
 Definition deps (g : gen) : list dep := fixed_deps g ++ rust_deps g.
 
@@ -198,17 +216,35 @@ Definition rust_crates (n : node) : list str :=
   end.
 
 (* ------------------------------------------------------------------ prepare_project (the CLI glue) *)
-(* Only the MAIN module is scanned for features and for `rust::` crates; dependency modules are not. *)
+(* The main module AND every imported module are scanned for features and for `rust::` crates. *)
 Record tables := mkTables { t_serde : edges; t_async : edges; t_web : edges; t_versions : table }.
 
-Definition flag_web (T : tables) (main : node) : bool := detect (t_web T) trig_web main.
-Definition flag_serde (T : tables) (main : node) : bool := detect (t_serde T) trig_serde main || flag_web T main.
-Definition flag_tokio (T : tables) (main : node) : bool := detect (t_async T) trig_async main || flag_web T main.
+Definition flag_web (T : tables) (mods : list node) : bool := existsb (detect (t_web T) trig_web) mods.
+Definition flag_serde (T : tables) (mods : list node) : bool :=
+  existsb (detect (t_serde T) trig_serde) mods || flag_web T mods.
+Definition flag_tokio (T : tables) (mods : list node) : bool :=
+  existsb (detect (t_async T) trig_async) mods || flag_web T mods.
 
-(* [order] = the iteration order of the rust_crate_deps HashMap: a permutation of [rust_crates main] *)
-Definition cli_gen (T : tables) (name root ver : str) (main : node) (order : list str) : gen :=
-  mkGen name true (flag_serde T main) (flag_tokio T main) (flag_web T main)
-        (map (fun c => (c, lookup (t_versions T) c)) order) root ver.
+Definition all_crates (mods : list node) : list str := dedup (flat_map rust_crates mods).
+
+Definition cli_gen (T : tables) (name root ver : str) (main : node) (dps : list node) : gen :=
+  let mods := main :: dps in
+  mkGen name true (flag_serde T mods) (flag_tokio T mods) (flag_web T mods)
+        (map (fun c => (c, lookup (t_versions T) c)) (all_crates mods)) root ver.
+
+Definition is_some {A : Type} (o : option A) : bool := match o with Some _ => true | None => false end.
+
+(* project names: what cargo accepts (ASCII part of its rule): [A-Za-z_][A-Za-z0-9_-]* *)
+Definition alpha (c : Z) : bool := ((65 <=? c) && (c <=? 90)) || ((97 <=? c) && (c <=? 122)) || (c =? 95).
+Definition name_char (c : Z) : bool := alpha c || digit c || (c =? 45).
+Definition legal_name (n : str) : bool :=
+  match n with [] => false | c :: r => alpha c && forallb name_char r end.
+
+(* `incan build`: refused (None) when the file stem is not a legal package name or when a `rust::`
+   crate has no known-good version; otherwise the project is written *)
+Definition cli_build (T : tables) (name root ver : str) (main : node) (dps : list node) : option gen :=
+  if legal_name name && forallb (fun c => is_some (lookup (t_versions T) c)) (all_crates (main :: dps))
+  then Some (cli_gen T name root ver main dps) else None.
 
 (* what the generated Rust of a program (main module + dependency modules) needs *)
 Definition any_uses (trig : trig_fn) (mods : list node) : bool := existsb (uses trig) mods.
@@ -221,31 +257,21 @@ Definition needs_tokio (main : node) (deps_ : list node) :=
 Definition needs_crate (c : str) (main : node) (deps_ : list node) : bool :=
   existsb (fun m => mem c (rust_crates m)) (main :: deps_).
 
-(* ------------------------------------------------------------------ known-finding classes *)
-(* scanner-arms: every occurrence of the trigger in the MAIN module sits behind one of the edges
-   the scanner is known not to follow *)
-Definition Known_C15_scanner_arms (known_missing : list (Z * Z)) (trig : trig_fn) (main : node) : Prop :=
-  uses trig main = true /\ detect (full_except known_missing) trig main = false.
-Definition known_scanner_arms_b (known_missing : list (Z * Z)) (trig : trig_fn) (main : node) : bool :=
-  uses trig main && negb (detect (full_except known_missing) trig main).
+(* ------------------------------------------------------------------ classes *)
+(* scanner-arms: every occurrence of the trigger in a module sits behind one of the edges the
+   scanner does not follow (EMPTY for the current scanners: the probes find no unscanned edge) *)
+Definition Known_C15_scanner_arms (known_missing : list (Z * Z)) (trig : trig_fn) (m : node) : Prop :=
+  uses trig m = true /\ detect (full_except known_missing) trig m = false.
+Definition known_scanner_arms_b (known_missing : list (Z * Z)) (trig : trig_fn) (m : node) : bool :=
+  uses trig m && negb (detect (full_except known_missing) trig m).
 
-(* dep-module-features: the need arises only in a dependency module *)
-Definition Known_C15_dep_module (trig : trig_fn) (main : node) (deps_ : list node) : Prop :=
-  uses trig main = false /\ any_uses trig deps_ = true.
-Definition Known_C15_dep_module_crate (c : str) (main : node) (deps_ : list node) : Prop :=
-  mem c (rust_crates main) = false /\ existsb (fun m => mem c (rust_crates m)) deps_ = true.
-
-(* wildcard-dep: a `rust::` crate without a table entry (and not one of the built-ins already added) *)
+(* writer level only (cli_build never hands such an entry to the writer): an entry without a
+   version that is not one of the built-ins already added *)
 Definition Known_C15_wildcard (g : gen) : Prop :=
   exists c, In (c, None) (g_crates g) /\ mem c (added g) = false.
 Definition known_wildcard_b (g : gen) : bool :=
   existsb (fun c => match snd c with None => negb (mem (fst c) (added g)) | Some _ => false end) (g_crates g).
 
-(* project names: what cargo accepts (ASCII part of its rule): [A-Za-z_][A-Za-z0-9_-]* *)
-Definition alpha (c : Z) : bool := ((65 <=? c) && (c <=? 90)) || ((97 <=? c) && (c <=? 122)) || (c =? 95).
-Definition name_char (c : Z) : bool := alpha c || digit c || (c =? 45).
-Definition legal_name (n : str) : bool :=
-  match n with [] => false | c :: r => alpha c && forallb name_char r end.
 Definition Known_C15_project_name (n : str) : Prop := legal_name n = false.
 
 (* ------------------------------------------------------------------ a TOML line recogniser *)
@@ -353,13 +379,16 @@ Definition table_wf (t : table) : bool := forallb (fun e => line_ok (dep_line (f
 (* ------------------------------------------------------------------ render for the correspondence run *)
 Definition b2z (b : bool) : Z := if b then 1 else 0.
 
-(* (manifest text, [serde; tokio; axum] flags, all deps pinned?, wildcard class?, all lines valid TOML?) *)
-Definition render_cli (T : tables) (name root ver : str) (main : node) (order : list str)
+(* (manifest text ([] when refused), [serde; tokio; axum] flags, [built?; all deps pinned?; all lines valid TOML?; legal name?]) *)
+Definition render_cli (T : tables) (name root ver : str) (main : node) (dps : list node)
   : str * list Z * list Z :=
-  let g := cli_gen T name root ver main order in
-  (generate_cargo_toml g,
-   [b2z (g_serde g); b2z (g_tokio g); b2z (g_axum g)],
-   [b2z (forallb dep_pinned (deps g)); b2z (known_wildcard_b g); b2z (manifest_ok g); b2z (legal_name name)]).
+  match cli_build T name root ver main dps with
+  | Some g =>
+    (generate_cargo_toml g,
+     [b2z (g_serde g); b2z (g_tokio g); b2z (g_axum g)],
+     [1; b2z (forallb dep_pinned (deps g)); b2z (manifest_ok g); b2z (legal_name name)])
+  | None => ([], [0; 0; 0], [0; 0; 0; b2z (legal_name name)])
+  end.
 
 (* scanner verdicts and "uses" for one module:
    [detect serde; detect async; detect web; uses serde; uses async; uses web; known-class serde; known-class async] *)
